@@ -792,3 +792,100 @@ func init() {
 	register("C01", Rule{"R01f", ruleDictSeesAllValues})
 	register("C05", Rule{"R01f", ruleDictSeesAllValues})
 }
+
+// R01g: removing one member removes one member.  The sequence representations (String, Array, Bytes) implement
+// `Without` of an end element by re-slicing their store.  A re-slice that drops a suffix (`store[:h]`) is right only
+// when the removed element is the last one: either the cut is expressed relative to the end (h derives from
+// len(store)) or an equality test involving len(store) controls it.  A cut at the index of the removed element under
+// nothing but bounds tests truncates everything behind an inner element.
+func ruleWithoutCutsOnlyAtTheEnd(p *Program, r *Report) {
+	r.Begin("R01g", "Without cuts only at the end: in the Without methods of String, Array and Bytes every re-slice of the receiver's store that drops a suffix (store[:h]) either takes h from len(store) or is control-dependent on an equality test that involves len(store)", 3)
+	defer r.End()
+	n := 0
+	for _, tn := range []string{"String", "Array", "Bytes"} {
+		fn := p.Method("rel", tn, "Without")
+		if fn == nil {
+			r.Undecided("anchor@"+tn, "rel."+tn+".Without not found", 0)
+			continue
+		}
+		r.Fn(FnName(fn))
+		var body []*ssa.Function
+		body = append(body, fn)
+		ForEachInstr(fn, func(ins ssa.Instruction) {
+			if c, ok := ins.(*ssa.Call); ok {
+				if g := c.Call.StaticCallee(); g != nil && g.Pkg == fn.Pkg && g.Blocks != nil && g.Signature.Recv() != nil && g.Name() != "Without" {
+					if nt, ok := Deref(g.Signature.Recv().Type()).(*types.Named); ok && nt.Obj().Name() == tn && strings.HasPrefix(strings.ToLower(g.Name()), "without") {
+						body = append(body, g) // a helper the method was split into
+					}
+				}
+			}
+		})
+		ord := 0
+		for _, f := range body {
+			pd := NewPostDom(f)
+			isStoreLen := func(x ssa.Value) bool {
+				c, ok := x.(*ssa.Call)
+				if !ok {
+					return false
+				}
+				b, ok := c.Call.Value.(*ssa.Builtin)
+				if !ok || b.Name() != "len" || len(c.Call.Args) != 1 {
+					return false
+				}
+				return isRecvStore(c.Call.Args[0], tn)
+			}
+			ForEachInstr(f, func(ins ssa.Instruction) {
+				sl, ok := ins.(*ssa.Slice)
+				if !ok || sl.High == nil || !isRecvStore(sl.X, tn) {
+					return
+				}
+				n++
+				ord++
+				key := fmt.Sprintf("cut@%s.Without~%d", tn, ord)
+				okCut := DependsOn(sl.High, isStoreLen)
+				if !okCut {
+					for _, d := range pd.TransitiveControlDeps(sl.Block()) {
+						cond := IfCond(d.Br)
+						if cond == nil {
+							continue
+						}
+						if DependsOn(cond, func(x ssa.Value) bool {
+							bo, ok := x.(*ssa.BinOp)
+							if !ok || bo.Op != token.EQL && bo.Op != token.NEQ {
+								return false
+							}
+							return DependsOn(bo.X, isStoreLen) || DependsOn(bo.Y, isStoreLen)
+						}) {
+							okCut = true
+						}
+					}
+				}
+				r.Check(okCut, key, "the suffix is dropped only when the last element is removed", fmt.Sprintf("%s.Without re-slices its store up to the removed element under nothing but bounds tests: removing an inner (or the first) element drops every element after it — the result is missing members that were not removed", tn), sl.Pos())
+			})
+		}
+	}
+	if n == 0 {
+		r.Undecided("sites", "no suffix-dropping re-slice found in the Without methods (String, Array and Bytes each have one)", 0)
+	}
+}
+
+// isRecvStore: v is (a load of) the slice field of a value of the named sequence type.
+func isRecvStore(v ssa.Value, tn string) bool {
+	check := func(t types.Type) bool {
+		nt, ok := Deref(t).(*types.Named)
+		return ok && nt.Obj().Name() == tn
+	}
+	switch x := v.(type) {
+	case *ssa.UnOp:
+		if fa, ok := x.X.(*ssa.FieldAddr); ok {
+			_, isSlice := x.Type().Underlying().(*types.Slice)
+			return isSlice && check(fa.X.Type())
+		}
+	case *ssa.Field:
+		_, isSlice := x.Type().Underlying().(*types.Slice)
+		return isSlice && check(x.X.Type())
+	}
+	return false
+}
+
+func init() { register("C01", Rule{"R01g", ruleWithoutCutsOnlyAtTheEnd}) }
